@@ -60,6 +60,17 @@ CHECKS.update({
                 note='Reads StreamControl._streams and FrameFragmentCache._frames_by_stream_id like the suite\'s assert_no_open_streams; lowers _maximum_stream_id like the suite.'),
 })
 
+CHECKS.update({
+    'C07': dict(engine='rawpeer', level='exploration', design='3/C07',
+                technique='bounded-exhaustive enumeration of peer-frame / local-action / connection-event sequences against a real endpoint with a scripted raw peer, plus Hypothesis programs with faults; grammar oracle over recorded signals',
+                text='All sequences up to a depth bound (spaced and "tight" schedules without a loop iteration between symbols) for every stream-carrying model, role and endpoint kind; recording subscribers and awaitables checked against the at-most-one-terminal grammar. Exhaustive only within the stated depth and alphabet.',
+                note='Trusted: raw peer encodes with the reference codec; the legality pruning of the raw peer (never sends after its own terminal frame).'),
+    'C11': dict(engine='simnet', level='fault_enumeration', design='3/C11',
+                technique='fault enumeration: Hypothesis-generated healthy prefixes re-run with the link cut at every (thorough) or stratified (quick) byte offset in both directions and both failure modes, close() at every operation index, and a raising publisher cancel()',
+                text='For each generated prefix the byte streams are learned from a healthy run, then every cut point is injected; after settle + 3 keepalive periods the pending awaitables, subscribers, publishers, on_close count, post-settle silence and task states are judged.',
+                note='Trusted: virtual loop and link fault model (EOF vs ConnectionResetError on read, writes fail after the cut). Message-mode close() does not notify the peer (websocket glue out of scope).'),
+})
+
 NOT_YET = {}
 
 
